@@ -1,5 +1,6 @@
 import XeofsProofs.Bridge
 import XeofsProofs.Lemmas.Whiten
+import XeofsProofs.Lemmas.WhitenRank
 import XeofsProofs.Lemmas.PsdSVD
 import XeofsProofs.Lemmas.Small
 import XeofsProofs.Props.C01
@@ -41,11 +42,30 @@ theorem whitened_cov_zero (V : Matrix (Fin p) (Fin p) 𝕜) (hV : Vᴴ * V = 1) 
     (specPow V s (Gen.whitenerPower 0))ᴴ * specPow V s 1 * specPow V s (Gen.whitenerPower 0) = 1 := by
   rw [whitened_cov V hV s hs 0, specPow_zero V hV' s]
 
-/-- **T_Tinv**: the whitening matrix and the matrix with the opposite exponent are mutually inverse -/
+/-- the exponent of `Tinv` written in the source is the opposite of the exponent of `T` -/
+theorem whitener_inverse_power (α : ℝ) : Gen.whitenerInversePower α = -(Gen.whitenerPower α) := by
+  simp [Gen.whitenerInversePower]
+
+/-- **T_Tinv**: the whitening matrix and the matrix the source computes as `Tinv` are mutually inverse (full rank) -/
 theorem T_Tinv (V : Matrix (Fin p) (Fin p) 𝕜) (hV : Vᴴ * V = 1) (hV' : V * Vᴴ = 1) (s : Fin p → ℝ)
     (hs : ∀ i, 0 < s i) (α : ℝ) :
-    specPow V s (Gen.whitenerPower α) * specPow V s (-(Gen.whitenerPower α)) = 1 :=
-  XP.Whiten.T_Tinv V hV hV' s hs _
+    specPow V s (Gen.whitenerPower α) * specPow V s (Gen.whitenerInversePower α) = 1 := by
+  rw [whitener_inverse_power]; exact XP.Whiten.T_Tinv V hV hV' s hs _
+
+/-- **unwhiten_rank_deficient**: with a rank-deficient covariance (collinear features) the fractional power keeps the
+directions `m` above the cut-off; `T` and `Tinv` are then NOT inverse to each other, yet un-whitening still restores the
+data, because the dropped directions (`s i = 0`) carry no data -/
+theorem unwhiten_rank_deficient (X : Matrix (Fin n) (Fin p) 𝕜) (V : Matrix (Fin p) (Fin p) 𝕜) (hV : Vᴴ * V = 1)
+    (hV' : V * Vᴴ = 1) (s : Fin p → ℝ) (c : ℝ) (m : Fin p → Bool) (hs : ∀ i, m i = true → 0 < s i)
+    (hm : ∀ i, m i = false → s i = 0) (hC : Xᴴ * X = V * diagonal (fun i => ((c * s i : ℝ) : 𝕜)) * Vᴴ) (α : ℝ) :
+    X * specPowM V s m (Gen.whitenerPower α) * specPowM V s m (Gen.whitenerInversePower α) = X := by
+  rw [whitener_inverse_power]
+  exact XP.Whiten.unwhiten_rank_deficient V hV hV' s m hs _ X
+    (XP.Whiten.dropped_directions_carry_no_data X V hV s c m hm hC)
+
+/-- with every direction retained the masked power is the plain one -/
+theorem specPowM_full (V : Matrix (Fin p) (Fin p) 𝕜) (s : Fin p → ℝ) (q : ℝ) :
+    specPowM V s (fun _ => true) q = specPow V s q := XP.Whiten.specPowM_all V s q
 
 /-- **unwhiten**: `X T Tinv = X` -/
 theorem unwhiten (X : Matrix (Fin n) (Fin p) 𝕜) (T Tinv : Matrix (Fin p) (Fin p) 𝕜) (h : T * Tinv = 1) :
